@@ -415,6 +415,34 @@ impl<T: Qcow2IoOps> Qcow2Dev<T> {
         }
     }
 
+    /// A zero-flagged entry may carry a preallocated host cluster of its
+    /// own (refcount 1): a write turns exactly that cluster into the data
+    /// cluster, instead of allocating another one and leaving (or having
+    /// to release, with the meta update ordering that needs) the
+    /// preallocation. Its content is undefined, so it is zeroed before
+    /// the first use like any new cluster.
+    async fn reuse_preallocation(
+        &self,
+        split: &SplitGuestOffset,
+        l2_table: &mut LockWriteGuard<L2Table>,
+    ) -> bool {
+        let info = &self.info;
+        let entry = l2_table.get_entry(info, split);
+
+        if entry.is_compressed() || !entry.is_zero() || !entry.is_copied() {
+            return false;
+        }
+        let host_cluster = entry.cluster_offset();
+        if host_cluster == 0 {
+            return false;
+        }
+
+        self.mark_new_cluster(host_cluster >> info.cluster_bits())
+            .await;
+        let _ = l2_table.map_cluster(split.l2_slice_index(info), host_cluster);
+        true
+    }
+
     #[inline]
     async fn alloc_and_map_cluster(
         &self,
@@ -422,6 +450,11 @@ impl<T: Qcow2IoOps> Qcow2Dev<T> {
         l2_table: &mut LockWriteGuard<L2Table>,
     ) -> Qcow2Result<Mapping> {
         let info = &self.info;
+
+        if self.reuse_preallocation(split, l2_table).await {
+            return Ok(l2_table.get_mapping(info, split));
+        }
+
         let allocated = self.allocate_cluster().await?;
         match allocated {
             Some(res) => {
@@ -431,15 +464,7 @@ impl<T: Qcow2IoOps> Qcow2Dev<T> {
                 self.mark_new_cluster(l2_offset >> info.cluster_bits())
                     .await;
 
-                // A zero-flagged entry may carry a preallocated cluster which
-                // is replaced now. (The clusters of a compressed entry are
-                // released by the COW path once the copy is done.)
-                let was_compressed = l2_table.get_entry(info, split).is_compressed();
-                if let Some((old, cnt)) = l2_table.map_cluster(split.l2_slice_index(info), l2_offset) {
-                    if !was_compressed {
-                        self.free_clusters(old, cnt).await?;
-                    }
-                }
+                let _ = l2_table.map_cluster(split.l2_slice_index(info), l2_offset);
                 Ok(l2_table.get_mapping(info, split))
             }
             None => Err("DataFile mapping: None offset None".into()),
@@ -512,6 +537,19 @@ impl<T: Qcow2IoOps> Qcow2Dev<T> {
             )
         };
 
+        // preallocated zero clusters become the data clusters
+        let mut reused = false;
+        for this_off in (start..end).step_by(cls_size as usize) {
+            let s = SplitGuestOffset(this_off);
+            if self.reuse_preallocation(&s, &mut l2_table).await {
+                reused = true;
+            }
+        }
+        if reused {
+            l2_handle.set_dirty(true);
+            self.mark_need_flush(true);
+        }
+
         // figure out how many clusters to allocate for write
         let mut nr_clusters = 0;
         for this_off in (start..end).step_by(cls_size as usize) {
@@ -555,11 +593,7 @@ impl<T: Qcow2IoOps> Qcow2Dev<T> {
 
                     // this is one new cluster
                     self.mark_new_cluster(l2_off >> info.cluster_bits()).await;
-                    // a zero-flagged entry may carry a preallocated cluster
-                    // which is replaced now
-                    if let Some((old, cnt)) = l2_table.map_cluster(split.l2_slice_index(info), l2_off) {
-                        self.free_clusters(old, cnt).await?;
-                    }
+                    let _ = l2_table.map_cluster(split.l2_slice_index(info), l2_off);
 
                     //load new entry
                     let entry = l2_table.get_entry(info, &split);
